@@ -48,7 +48,7 @@ impl Hub {
         AppResponse { events: if shape & 2 == 0 { events } else { vec![] }, data: if shape & 1 == 0 { Some(Binary::from(data.to_vec())) } else { None } }
     }
     pub fn event_type(shape: u8) -> &'static str {
-        ["rec", "r", " ", "_wasm-x"][(shape >> 2 & 3) as usize]
+        ["rec", "message", " ", "_wasm-x"][(shape >> 2 & 3) as usize]
     }
     fn fails(&self, m: &'static str) -> bool {
         self.failing.borrow().get(m).copied().unwrap_or(false)
@@ -935,6 +935,60 @@ pub fn multi_cells(w: &mut RWorld, n0: u64, rep: &mut Report) -> Vec<Fail> {
     fails
 }
 
+
+/// Funds attached to wasm messages are moved by the bank the application was built with — whoever receives them:
+/// another contract, a new contract, the sending contract itself, a user's call. Every such transfer shows in the
+/// recording bank's log as a Send from the payer to the receiving contract.
+pub fn attached_funds_cells(w: &mut RWorld, n0: u64, rep: &mut Report) -> Vec<Fail> {
+    let mut fails = vec![];
+    let user = w.user.clone();
+    let (p0, p1) = (w.puppets[0].clone(), w.puppets[1].clone());
+    let tagb = 890_000 + (n0 % 1000) as u32 * 10;
+    // (description, top-level message, expected (payer, receiver) of the implicit transfers, in order)
+    let leaf = |t: u32| Box::new(Script { tag: t, ..Default::default() });
+    let cases: Vec<(&str, Msg, Vec<(String, String)>)> = vec![
+        ("a user executes a contract with funds", Msg::Exec { addr: p0.clone(), script: leaf(tagb + 1), funds: vec![coin(2, "ua")] }, vec![(user.clone(), p0.clone())]),
+        (
+            "a contract executes another contract with funds",
+            Msg::Exec { addr: p0.clone(), script: Box::new(Script { tag: tagb + 2, msgs: vec![Sub { id: 1, mode: RMode::Never, payload: Payload::Raw(Binary::default()), msg: Msg::Exec { addr: p1.clone(), script: leaf(tagb + 3), funds: vec![coin(1, "ua")] } }], ..Default::default() }), funds: vec![] },
+            vec![(p0.clone(), p1.clone())],
+        ),
+        (
+            "a contract executes itself with funds",
+            Msg::Exec { addr: p0.clone(), script: Box::new(Script { tag: tagb + 4, msgs: vec![Sub { id: 1, mode: RMode::Never, payload: Payload::Raw(Binary::default()), msg: Msg::Exec { addr: p0.clone(), script: leaf(tagb + 5), funds: vec![coin(1, "ua")] } }], ..Default::default() }), funds: vec![] },
+            vec![(p0.clone(), p0.clone())],
+        ),
+    ];
+    for (what, msg, want) in cases {
+        // the emitting contract holds coins
+        let _ = w.app.sudo(cw_multi_test::SudoMsg::Bank(BankSudo::Mint { to_address: p0.clone(), amount: vec![coin(5, "ua")] }));
+        w.hub.log.borrow_mut().clear();
+        let res = catch(|| w.app.execute(Addr::unchecked(user.clone()), to_cosmos::<PMsg>(&msg)).map(|_| ()).map_err(|e| format!("{:#}", e)));
+        let _ = take_trace();
+        rep.evaluations += 1;
+        rep.bump("c17/attached_funds_cells");
+        match res {
+            Ok(Ok(())) => {}
+            other => {
+                fails.push(("caller-sees-failure-although-module-accepted".into(), format!("{}: {:?}", what, other)));
+                continue;
+            }
+        }
+        let got: Vec<(String, String)> = w
+            .hub
+            .log
+            .borrow()
+            .iter()
+            .filter(|e| e.module == "bank" && e.kind == "exec")
+            .map(|e| (e.sender.clone().unwrap_or_default(), e.payload.split("to_address: \"").nth(1).and_then(|r| r.split('"').next()).unwrap_or("").to_string()))
+            .collect();
+        rep.add("c17/log_entries_checked", got.len() as u64);
+        if got != want {
+            fails.push(("attached-funds-not-moved-by-the-configured-bank".into(), format!("{}: the bank saw transfers {:?}, expected {:?}", what, got, want)));
+        }
+    }
+    fails
+}
 
 /// Long message lists: one contract response (and one execute_multi batch) carrying 257 to 300 messages of one kind —
 /// every one of them reaches its module, in order, exactly once (accepting configuration of that module only).
